@@ -24,7 +24,9 @@ EXPLANATION = (
     "server name and client chain of the connection that issued it.")
 NOT_DECIDED = ("histories over a real clock, cache eviction behaviour, what the resumed connection "
                "negotiates on the wire, key rotation timing")
-TECHNIQUE = "CFG must-pass-through with effective gates, kill nodes and emptiness-edge cuts; finite-domain guard evaluation"
+TECHNIQUE = ("CFG must-pass-through with effective gates, kill nodes and emptiness-edge cuts; finite-domain guard "
+             "evaluation; call-graph typestate on pending connection states; ticket format version by interpreting "
+             "create() over the 16 field combinations")
 
 
 def rule_srv_gates(ctx):
